@@ -94,6 +94,17 @@ CHECKS = {
         "Planted out-of-range indices are recognised syntactically in the input text.",
         "DESIGN.md section 4, C18",
     ),
+    "C10": (
+        "Hypothesis untyped-grammar generation x 3 supply forms x 3 operators + bounded-exhaustive stratum (depth<=1 quick, depth<=2 "
+        "thorough); oracle = structural identity with a pristine parse, or ValueError justified by a syntactic designed-refusal classifier",
+        "For every generated or enumerated lambda the emitted lambda must be ast.dump-equal to an independent parse of the source "
+        "text; the only other admissible outcome is a ValueError in the presence of a designed-refusal trigger recognised by a "
+        "classifier written from the statement (with exact must-pass predictions for comparison/boolean Where bodies, same-type "
+        "constant conditionals, in-range tuple indices and defined dict keys); any other exception is an internal error.",
+        "The classifier over-approximates where refusals may occur (it never requires a refusal); callables are rendered one per "
+        "line (layouts are C03's job).",
+        "DESIGN.md section 4, C10",
+    ),
 }
 
 NOT_YET = "check not built yet in this round (work in progress; see DESIGN.md section 4 for the planned generator/oracle)"
